@@ -736,6 +736,18 @@ void set_mutex_init_fail(int nth, int err) { if (tl_self) { tl_self->mutex_init_
 void set_affinity_fail(int nth, int err) { if (tl_self) { tl_self->aff_fail_n = nth; tl_self->aff_fail_err = err; } }
 void set_attr_fail(int which, int err) { if (tl_self) { tl_self->attr_fail_which = which; tl_self->attr_fail_err = err; } }
 int backtrace_mode() { return G.run_active ? G.backtrace_mode : 0; }
+// Objects without an init/destroy hook (atomics) are identified by address. When the code under test frees memory that came from the real
+// heap and later gets the same - or another - address for a new object, whether the two coincide depends on the heap's history, which is
+// not part of a run: the harness names the dead range and every object in it is forgotten (a later object there is a new object).
+void forget_objects(const void *p, size_t n) {
+    if (!G.run_active) return;
+    for (auto it = G.objs.begin(); it != G.objs.end();) {
+        const uint8_t *a = (const uint8_t *)it->first;
+        if (a >= (const uint8_t *)p && a < (const uint8_t *)p + n) {
+            it = G.objs.erase(it);
+        } else ++it;
+    }
+}
 const std::vector<PageInfo> &live_pages() { return G.pages; }
 void set_page_recycling(bool on) { G.recycle = on; }
 void *take_recycled_page() {
